@@ -116,6 +116,7 @@ fn build_wrapped_loop_choice_block(
                         Some(&continuation_path_abs)
                     },
                     continuation_terminal: simple_terminal_fallback,
+                    label_scan_path: None,
                 },
                 context,
             )?,
@@ -192,6 +193,10 @@ struct WrappedLoopChoiceBodyConfig<'a> {
     choices_prefix: &'a str,
     continuation_path: Option<&'a str>,
     continuation_terminal: Option<&'a str>,
+    /// The path the label pre-scan (`collect_choice_labels_recursive`) gave this choice, when
+    /// it is not the path the choice is emitted at: count flags asked for through the
+    /// choice's label are registered under it.
+    label_scan_path: Option<&'a str>,
 }
 
 fn emit_wrapped_loop_choice_body(
@@ -298,11 +303,10 @@ fn emit_wrapped_loop_choice_body(
         branch_container.push(token);
     }
 
-    let extra_flags = context
-        .flow_count_flags
-        .get(&branch_scope.path)
-        .copied()
-        .unwrap_or(0);
+    let extra_flags = std::iter::once(branch_scope.path.as_str())
+        .chain(config.label_scan_path)
+        .filter_map(|path| context.flow_count_flags.get(path))
+        .fold(0, |flags, extra| flags | extra);
     let mut flags = 0;
     if choice.once_only || context.count_all_visits || (extra_flags & COUNT_VISITS != 0) {
         flags |= COUNT_VISITS;
